@@ -286,6 +286,9 @@ func checkLexer(c *checkCtx, prop string) {
 		add(nil)
 		for k := 0; k < nInputs; k++ {
 			in := j.sp.genInput(c.rng)
+			if o.modes && k%4 == 3 {
+				in = j.sp.genInputErrorInMode(c.rng)
+			}
 			add(in)
 			if prop == "C11" && k < 6 {
 				for cut := 1; cut < len(in); cut++ {
